@@ -15,7 +15,7 @@ theorem valid_parts (h : P.valid = true) :
     P.validSizes = true ∧ P.validSimple = true ∧ P.validContainer = true ∧ P.validHeaders = true ∧
     P.validList = true ∧ P.validMap = true ∧ P.mapBinaryGuard = true := by
   simp only [Params.valid, Bool.and_eq_true] at h
-  obtain ⟨⟨⟨⟨⟨⟨⟨⟨⟨⟨⟨⟨a, b⟩, c⟩, d⟩, e⟩, f⟩, _⟩, _⟩, _⟩, _⟩, _⟩, _⟩, g⟩ := h
+  obtain ⟨⟨⟨⟨⟨⟨⟨⟨⟨⟨⟨⟨⟨a, b⟩, c⟩, d⟩, e⟩, f⟩, _⟩, _⟩, _⟩, _⟩, _⟩, _⟩, g⟩, _⟩ := h
   exact ⟨a, b, c, d, e, f, g⟩
 
 theorem simple_eq (h : P.valid = true) (t : TT) : P.simple t = specSimple t := by
